@@ -304,8 +304,8 @@ func genDuty(t *rapid.T, svc *Case, taken []uint64) Case {
 
 	faulty := false
 	c.Accounts = "ok"
-	if pct(t, 6, "accountsFault") {
-		c.Accounts = pick(t, []string{"error", "none"}, "accountsFaultKind")
+	if pct(t, 8, "accountsFault") {
+		c.Accounts = pick(t, []string{"error", "none", "miskeyed", "extra"}, "accountsFaultKind")
 	}
 	c.Randao = "ok"
 	if pct(t, 4, "randaoErr") {
@@ -810,6 +810,13 @@ func judge(c *Case, o *observation) (fs []finding, labels []string, inconclusive
 
 	// --- RANDAO reveal: only for the duty's validator and slot
 	for _, r := range o.randaos {
+		if r.account == nil {
+			// a request that names no account asks for nobody's reveal (the signer
+			// refuses it); it is what is left when the provider has no account for
+			// the duty's validator
+			labels = append(labels, "randao-asked-without-account(refused)")
+			continue
+		}
 		if !accountsAvailable || r.account != dutyAcc || r.slot != c.DutySlot {
 			add("randao-wrong-target", "RANDAO reveal requested for account %s slot %d; duty is validator %d slot %d (accounts: %s)",
 				accName(r.account), r.slot, c.DutyIndex, c.DutySlot, c.Accounts)
